@@ -41,6 +41,7 @@ type JobResult struct {
 	Discharged    int            `json:"discharged"`   // decided unsat (or trivially true)
 	Trivial       int            `json:"trivial"`      // folded to true without the solver
 	Inconclusive  int            `json:"inconclusive"` // solver unknown / error
+	Skipped       bool           `json:"skipped,omitempty"` // not explored: the check already had enough counterexamples
 	Reached       map[string]int `json:"reached"`
 	Violations    []Violation    `json:"violations"`
 	Queries       int            `json:"queries"`
